@@ -59,7 +59,16 @@ func run(op, arg string) string {
 			return "st=read-error detail=" + hx([]byte(firstLine(err.Error())))
 		}
 		vname := arg[strings.LastIndexByte(arg, '/')+1:]
-		_, wat, _, err := wapi.BuildFile(wapi.DefaultConfig(), vname, string(b))
+		var wat []byte
+		err = func() (err error) {
+			defer func() {
+				if r := recover(); r != nil {
+					err = fmt.Errorf("compiler panic: %v", r)
+				}
+			}()
+			_, wat, _, err = wapi.BuildFile(wapi.DefaultConfig(), vname, string(b))
+			return err
+		}()
 		if err != nil {
 			return "st=build-error detail=" + hx([]byte(firstLine(err.Error())))
 		}
